@@ -32,8 +32,9 @@ func (c *FnCtx) contractParamDummies(fc *FuncContract, fn *ssa.Function) (map[st
 		fn = c.eng.funcs[fc.Key]
 	}
 	if fn != nil {
-		for _, p := range fn.Params {
+		for i, p := range fn.Params {
 			vars[p.Name()] = Term{"dummy!" + p.Name(), c.ss.SortOf(p.Type()), p.Type()}
+			vars[fmt.Sprintf("p%d", i)] = vars[p.Name()]
 		}
 		return vars, nil
 	}
@@ -175,18 +176,6 @@ func (e *Engine) VerifyFunc(fc *FuncContract) *FuncResult {
 			c.errorf("loop %d has a contract but the function has %d loops", n, len(fr.loops))
 		}
 	}
-	if c.wantTermination() {
-		// recursion: every call to a function in the same SCC needs a measure; we only flag direct recursion here
-		for _, b := range fn.Blocks {
-			for _, ins := range b.Instrs {
-				if ci, ok := ins.(ssa.CallInstruction); ok {
-					if cal := ci.Common().StaticCallee(); cal == fn && len(fc.Measure) == 0 {
-						c.obligation("rec-dec", "", ins.Pos(), "", "true", "false", nil).Note = "recursive call without measure"
-					}
-				}
-			}
-		}
-	}
 	// postconditions and frame at each return
 	sig := fn.Signature
 	var retReach []string
@@ -295,7 +284,7 @@ func (c *FnCtx) frameObligations(fc *FuncContract, fr *Frame, r retInfo, entryEn
 		if h0 == h1 {
 			continue
 		}
-		if strings.HasPrefix(k, "g:") {
+		if strings.HasPrefix(k, "g:") || strings.HasPrefix(k, "gg:") {
 			srt := c.sortOfKey(k)
 			eq := app("=", h0, h1)
 			if c.ss.IsSeq(Sort(srt)) {
